@@ -75,6 +75,16 @@ CHECKS = {
         technique="exhaustive permutation enumeration: every sub-multiset (up to a size) of an item pool per scenario, created in every order, sorted by the real code; results compared across all orders of one multiset",
         text="Seven scenarios (packages with names a, a1, a2, a10, a1b, b; mixed kinds in an ELEMENTS bag; containers with INDEX values incl. 0x2; parameter values keyed by DEFINITION-REF with equal keys, different values and comments; references ordered by DEST; two ordered parents) x every sub-multiset of <= 5 (thorough 7) siblings x every distinct creation order: sort never panics, keeps every element object, value, attribute and comment, leaves ordered parents untouched, keeps all path/reference invariants and strict loadability, is idempotent, and gives the same text (comments aside) for every creation order.",
         note="Trusted: comparison with comments removed (siblings identical up to comments may keep their order). Item pools are fixed; other names and sibling counts above the bound are outside."),
+    "C15": dict(
+        engine="schedx", category="model_checking", design="DESIGN.md sections 4 and 5, C15",
+        technique='stateless model checking of the implementation: real threads under a controlled scheduler (every lock acquisition of the crate is a scheduling point through the verif lock shim), a parking_lot RwLock admission model bound to the real lock, preemption-bounded depth-first enumeration of all schedules by prefix replay',
+        text="All 627 reader-writer, writer-writer and same-operation pairs and 6 triples of a 39-operation catalogue (serialize, path, lookups, check_references, duplicate, create, copy, move, remove, rename, reference edits, comment, attribute, sort, create_file, remove_file, two loads, set_version, remove_from_file) on a shared seed model: every schedule with at most 1 (thorough 2) preemptions, including every timeout choice of timed acquisitions, is executed on the real code; a state in which unfinished threads exist and no lock transition (including timeouts) is enabled is a deadlock. Each reported schedule is replayed twice and must behave identically.",
+        note='Trusted: all shared state of the crate is behind the intercepted locks (no unsafe, atomics or static mut in autosar-data); the lock model (checked against parking_lot in 14 situations at the start of every run and at every granted step); file locks are modelled but are not branching points. More than 3 threads, schedules needing more preemptions than the bound, and tuples whose exploration exceeds the execution budget (listed in the evidence with the bound they completed) are outside.'),
+    "C16": dict(
+        engine="schedx", category="model_checking", design="DESIGN.md sections 4 and 5, C16",
+        technique='stateless model checking of the implementation: real threads under a controlled scheduler (every lock acquisition of the crate is a scheduling point through the verif lock shim), a parking_lot RwLock admission model bound to the real lock, preemption-bounded depth-first enumeration of all schedules by prefix replay' + "; oracle = the same calls run sequentially in every order on a fresh seed",
+        text="Same tuples and schedules as C15. For every complete execution the returned values and the final canonical form of the model (files, tree, membership, path index, referrer lists) must equal those of some sequential order of the same calls, where calls that returned ParentElementLocked are dropped from the order and must have left no trace; all structural and index invariants must hold in the final state of serializable outcomes.",
+        note='Trusted: all shared state of the crate is behind the intercepted locks (no unsafe, atomics or static mut in autosar-data); the lock model (checked against parking_lot in 14 situations at the start of every run and at every granted step); file locks are modelled but are not branching points. More than 3 threads, schedules needing more preemptions than the bound, and tuples whose exploration exceeds the execution budget (listed in the evidence with the bound they completed) are outside.'),
     "C07": dict(
         engine="specwalk", category="model_checking", design="DESIGN.md section 5, C07",
         technique="explicit-state exploration per content model: every datatype x version, every content state reachable by <= 2-3 creations, every candidate sub-element at every position (create-at, copy-at, move-at), every value/attribute candidate; each step executed through the real editing API and compared with the harness's own order checker and table-driven validator, then serialized and reloaded leniently",
